@@ -112,14 +112,15 @@ inductive Compile where
   | unmodelled (w : String)
 deriving Repr, Inhabited
 
+/-- `multi_agg.key_cols.contains(&Expr::column("_timeslice"))` -/
+def isTimesliceCol : Expr → Bool
+  | .col "_timeslice" [] => true
+  | _ => false
+
 /-- `Pipeline::implicit_sort` -/
 def implicitSort (m : MultiAgg) : List Expr × SortDir :=
-  let ts := Expr.col "_timeslice" []
-  let hasTs := m.keyCols.any (fun e => match e with
-    | .col "_timeslice" [] => true
-    | _ => false)
   let cols := m.fns.map (fun nf => Expr.col nf.1 [])
-  if hasTs then (ts :: cols, .asc) else (cols, .desc)
+  if m.keyCols.any isTimesliceCol then (Expr.col "_timeslice" [] :: cols, .asc) else (cols, .desc)
 
 def convertMultiAgg (m : MultiAgg) : Static Grouper :=
   let rec fns : List (String × AggFn) → Static (List (String × AggDef))
@@ -310,7 +311,9 @@ def applyStage (ext : Ext) (s : AggStage) (t : Table) : RunR Table :=
     | .unmodelled w => .unmodelled w
   | .sort cols dir =>
     if !sortKeysOk ext cols t.rows then
-      .unmodelled "sort key fails to evaluate on some row (comparator is not a total order)"
+      .unmodelled "sort key panics or is outside the modelled fragment on some row"
+    else if !sortDetermined ext cols t.columns t.rows then
+      .unmodelled "sort compares two objects (hash-order dependent)"
     else .ok { t with rows := sortRows ext cols dir t.columns t.rows }
   | .adapt op => adaptTable ext op t
 
@@ -325,7 +328,9 @@ def headStage (ext : Ext) (s : AggStage) (rows : List Record) : RunR Table :=
       cs ++ sortStrings ((Fields.keys r.data).filter (fun k => !cs.contains k))) []
     let datas := rows.map (·.data)
     if !sortKeysOk ext cols datas then
-      .unmodelled "sort key fails to evaluate on some row (comparator is not a total order)"
+      .unmodelled "sort key panics or is outside the modelled fragment on some row"
+    else if !sortDetermined ext cols columns datas then
+      .unmodelled "sort compares two objects (hash-order dependent)"
     else
       -- incremental stable insertion by the ascending primary ordering
       let pre := datas.foldl (fun acc d =>
